@@ -263,7 +263,12 @@ def split(
     mode = StreamTokenizer.DROP_TRAILING_SILENCE if drop_trailing_silence else 0
     if strict_min_dur:
         mode |= StreamTokenizer.STRICT_MIN_LENGTH
-    min_length = _duration_to_nb_windows(min_dur, analysis_window, math.ceil)
+    min_length = max(
+        _duration_to_nb_windows(
+            min_dur, analysis_window, math.ceil, -_EPSILON
+        ),
+        1,
+    )
     max_length = _duration_to_nb_windows(
         max_dur, analysis_window, math.floor, _EPSILON
     )
